@@ -15,9 +15,10 @@ restore() { mv "$TMPM/MUTANTS" "$WT/MUTANTS"; rmdir "$TMPM"; }
 cd "$WT" && git checkout -q -- . && git clean -fdq
 git apply "$M/patch.diff" || { echo "RESULT $NAME patch-does-not-apply"; restore; exit 1; }
 suite_ok=no
-for try in 1 2 3 4; do
-  if go test -vet=off -count=1 ./... > "$TMPM/suite.log" 2>&1; then suite_ok=yes; break; fi
-  if ! grep -q "world runtime limit: timeout" "$TMPM/suite.log"; then break; fi
+# the suite's 1-2 ms evaluation timeouts fire at random on a loaded machine: a change counts as
+# passing the suite if one complete run is clean; packages are run one at a time to keep load down
+for try in 1 2 3 4 5 6; do
+  if go test -p 1 -vet=off -count=1 ./... > "$TMPM/suite.log" 2>&1; then suite_ok=yes; break; fi
 done
 cp "$M/demo_test.go" "$WT/$DEMO_DIR/zz_demo_test.go"
 PKG="./$DEMO_DIR"
